@@ -382,8 +382,8 @@ class Flat:
         if not s.seq:
             # frames are allocated per activation from a per-thread stack pointer (recursion-safe); on straight-line paths cbmc folds the addresses to constants
             if fsize:
-                fpline = '  const u64 ir_fp = ir_sp[ir_cur]; ir_sp[ir_cur] = ir_fp + %dull; IR_ASSERT(ir_sp[ir_cur] <= IR_STACK_BASE + ((u64)ir_cur + 1ull) * IR_STACK_STRIDE, "model stack overflow (recursion deeper than the harness provides for)");' % fsize
-                body = [b.replace('/*IR_EPILOGUE*/', 'ir_sp[ir_cur] = ir_fp; ') for b in body]
+                fpline = '  const u64 ir_fp = IR_SP; IR_SP = ir_fp + %dull; IR_ASSERT(IR_SP <= IR_STACK_BASE + ((u64)ir_cur + 1ull) * IR_STACK_STRIDE, "model stack overflow (recursion deeper than the harness provides for)");' % fsize
+                body = [b.replace('/*IR_EPILOGUE*/', 'IR_SP = ir_fp; ') for b in body]
             else:
                 fpline = ''; body = [b.replace('/*IR_EPILOGUE*/', '') for b in body]
             return '%s {\n%s\n%s\n}\n' % (s.proto(f), fpline, '\n'.join(decls + body))
